@@ -463,6 +463,13 @@ def atoms_text():
     if not m:
         raise R.Unsupported("the successor rule of the automatic zoom sizes not found")
     emit("zl_factor", [], N, lambda: (("int", m.group(1))))
+    # --- the readers' block fetch: read_block_data in bbiread.rs (how many bytes are read, how large the inflate buffer is) ----------
+    brs = read("bigtools/src/bbi/bbiread.rs")
+    b = region(brs, "read_block_data")
+    rbp = ["info_header_uncompress_buf_size", "block_size", "raw_data_len"]
+    emit("rb_raw_len", [(x, N) for x in rbp], N, lambda: (R.inline_lets(R.vec_len_expr(b, "raw_data"), b, rbp, consts=brs)))
+    emit("rb_inflate_buf", [(x, N) for x in rbp], N, lambda: (R.inline_lets(R.vec_len_expr(b, "outbuf"), b, rbp, consts=brs)))
+    emit("rb_compressed", [(x, N) for x in rbp], B, lambda: (R.inline_lets(R.cond_over(b, {"uncompress_buf_size"}), b, rbp, consts=brs)))
     # --- pybigtools exact-bin and per-base array routines: which float format every integer → float conversion goes to -------
     # (the model computes bin borders and means in exact arithmetic; that is what `f64` gives for 32-bit coordinates and counts —
     # FR.f64_exact_u32 — and what `f32` does not)
